@@ -536,29 +536,74 @@ def build(spec: dict, workdir: str, tag: str = "t") -> Built:
                 t = ir.Tensor(big[::2][:len(xs)].reshape(shape), name=tag)
             elif var == "ir.tensor":
                 t = ir.tensor(a, dtype=dt, name=tag)
+            elif var == "offset_view":   # contiguous slice in the middle of a larger buffer
+                big = np.ones((len(xs) + 5,), dtype=a.dtype)
+                big[3:3 + len(xs)] = a.reshape(-1)
+                t = ir.Tensor(big[3:3 + len(xs)].reshape(shape), name=tag)
+            elif var == "offset_strided":
+                big = np.ones((len(xs) * 2 + 3,), dtype=a.dtype)
+                big[1::2][:len(xs)] = a.reshape(-1)
+                t = ir.Tensor(big[1::2][:len(xs)].reshape(shape), name=tag)
             else:
                 raise AssertionError(var)
             return Built(t, f"(RArray {cdt} {cshape} {nl(store)})")
         if kind == "torch":
             import torch
             from onnx_ir import tensor_adapters
-            if str(dt.numpy()).startswith(("bfloat", "float8", "float4", "int4", "uint4", "int2", "uint2")):
-                u = np.array(xs, dtype=f"uint{bw}")       # ml_dtypes type: reinterpret an unsigned buffer
-                tt = torch.from_numpy(u).view(tensor_adapters.to_torch_dtype(dt)).reshape(shape)
+            tdt = tensor_adapters.to_torch_dtype(dt)
+            ml = str(dt.numpy()).startswith(("bfloat", "float8", "float4", "int4", "uint4", "int2", "uint2"))
+            full = (1 << bw) - 1
+
+            def flat(bits):       # 1-D torch tensor holding the given bit patterns
+                if ml:
+                    return torch.from_numpy(np.array(bits, dtype=f"uint{bw}")).view(tdt)
+                return torch.from_numpy(np.ascontiguousarray(bits_to_array(ir, name, [len(bits)], bits)))
+            junk = lambda k, salt: [1 if name == "BOOL" else ((0xA5A5A5A5A5A5A5A5A5A5A5A5A5A5A5A5 >> (i + salt) % 7) & full)  # noqa: E731
+                                    for i in range(k)]
+            n = len(xs)
+            var = p.get("variant", "fresh")
+            k = p.get("k", 3)
+            if var in ("fresh", "ir.tensor"):
+                tt = flat(xs).reshape(shape)
+            elif var == "noncontig":
+                tt = flat(xs).reshape(shape)
+                if len(shape) >= 2:
+                    tt = tt.transpose(0, 1).contiguous().transpose(0, 1)
+            elif var == "view_tail":         # w[k:]  — contiguous view with a non-zero storage offset
+                tt = flat(junk(k, 0) + list(xs))[k:].reshape(shape)
+            elif var == "view_narrow":       # w.narrow(0, k, n) in the middle of a buffer
+                tt = flat(junk(k, 1) + list(xs) + junk(2, 2)).narrow(0, k, n).reshape(shape)
+            elif var == "view_row":          # w[i] of a 2-D tensor (0-d element when n == 1 and shape == [])
+                rows = k + 2
+                base = flat([b for r in range(rows) for b in (list(xs) if r == k else junk(n, r))]).reshape(rows, n)
+                tt = base[k].reshape(shape) if shape else base[k][0]
+            elif var == "view_split":        # a piece of torch.split
+                tt = (torch.split(flat(junk(k, 3) + list(xs)), [k, n])[1] if n else flat(junk(k, 3))[k:]).reshape(shape)
+            elif var == "view_strided":      # non-contiguous view with an offset: w[1::2]
+                inter = [b for x, jb in zip(xs, junk(n, 4)) for b in (jb, x)]
+                tt = flat(junk(1, 5) + inter if not inter else inter)[1::2][:n].reshape(shape) if n else flat(junk(1, 5))[1:].reshape(shape)
+            elif var == "view_t_offset":     # transposed view of a buffer region that starts at an offset
+                arr = np.array(xs, dtype=object).reshape(shape)
+                if len(shape) >= 2:
+                    arrT = np.ascontiguousarray(arr.swapaxes(0, 1))
+                    tt = flat(junk(k, 6) + [int(v) for v in arrT.reshape(-1)])[k:].reshape(list(arrT.shape)).transpose(0, 1)
+                else:
+                    tt = flat(junk(k, 6) + list(xs))[k:].reshape(shape)
             else:
-                tt = torch.from_numpy(np.ascontiguousarray(bits_to_array(ir, name, shape, xs))).reshape(shape)
-            if p.get("variant") == "ir.tensor":
-                t = ir.tensor(tt, name=tag)
-            elif p.get("variant") == "noncontig" and len(shape) >= 2:
-                tt = tt.transpose(0, 1).contiguous().transpose(0, 1)
-                t = tensor_adapters.TorchTensor(tt, name=tag)
-            else:
-                t = tensor_adapters.TorchTensor(tt, name=tag)
+                raise AssertionError(var)
+            if list(tt.shape) != list(shape):
+                raise AssertionError(f"harness: torch view {var} has shape {list(tt.shape)}")
+            t = ir.tensor(tt, name=tag) if var == "ir.tensor" else tensor_adapters.TorchTensor(tt, name=tag)
             return Built(t, f"(RTorch {cdt} {cshape} {nl(xs)})")
         if kind == "packed":
             raw = list(p["raw"]) if "raw" in p else list(ref_pack(name, xs))
             term = f"(RPacked {cdt} {cshape} {nl(raw)})"
-            t = ir.PackedTensor(np.array(raw, dtype=np.uint8), dt, shape=shape, name=tag)
+            if p.get("view"):        # packed bytes are a slice of a larger buffer
+                bigp = np.full((len(raw) + 4,), 0xEE, dtype=np.uint8)
+                bigp[2:2 + len(raw)] = raw
+                t = ir.PackedTensor(bigp[2:2 + len(raw)], dt, shape=shape, name=tag)
+            else:
+                t = ir.PackedTensor(np.array(raw, dtype=np.uint8), dt, shape=shape, name=tag)
             return Built(t, term)
         if kind == "proto":
             if p["field"] == "helper":      # the ONNX reference encoder builds the proto
@@ -587,7 +632,11 @@ def build(spec: dict, workdir: str, tag: str = "t") -> Built:
                 f.write(content)
             off = None if p.get("offset_none") else p.get("offset", pre)
             ln = {"none": None, "nbytes": ref_nbytes(name, len(xs))}.get(p.get("length", "none"), p.get("length"))
-            term = f"(RExternal {cdt} {cshape} {nl(content)} {copt(off, cN)} {copt(ln, cN)})"
+            if pre > 64 or post > 64:
+                cfile = f"(pat 37 11 {pre} ++ {nl(data)} ++ pat 91 5 {post})"
+            else:
+                cfile = nl(content)
+            term = f"(RExternal {cdt} {cshape} {cfile} {copt(off, cN)} {copt(ln, cN)})"
             if p.get("via") == "proto":
                 tp = onnx.TensorProto()
                 tp.name, tp.data_type = tag, int(dt)
@@ -710,15 +759,20 @@ def observe(spec: dict, workdir: str) -> dict:
     def np_bits():
         a = t.numpy()
         return {"bits": array_to_bits(a, name), "shape": [int(d) for d in a.shape], "npdtype": str(a.dtype)}
-    obs["numpy"] = attempt(np_bits)
     fresh = (lambda tg: build(spec, workdir, tg).tensor) if spec.get("malformed") else (lambda tg: t)
     # (malformed inputs: one fresh object per accessor, because a failed _load leaves the mmap behind and
-    #  later calls then answer differently; the model describes a fresh object)
-    t2 = fresh("u")
-    obs["tobytes"] = attempt(lambda: bytes(t2.tobytes()))
+    #  later calls then answer differently; the model describes a fresh object.  Well-formed inputs: ONE object,
+    #  accessors called in the order given by spec["order"] — the answers must not depend on it.)
     obs["tofile"] = []
-    for d in spec.get("dests", []):
-        obs["tofile"].append(run_tofile(fresh("w"), d, workdir))
+    for step in spec.get("order", "ntf"):
+        if step == "n":
+            obs["numpy"] = attempt(np_bits)
+        elif step == "t":
+            t2 = fresh("u")
+            obs["tobytes"] = attempt(lambda: bytes(t2.tobytes()))
+        else:
+            for d in spec.get("dests", []):
+                obs["tofile"].append(run_tofile(fresh("w"), d, workdir))
     # second reads (caching / mmap state must not change the answer)
     again = attempt(lambda: bytes(t.tobytes()))
     obs["tobytes_again_same"] = again[:2] == obs["tobytes"][:2]
@@ -898,13 +952,15 @@ def rep_variants(name: str) -> list[tuple[str, dict]]:
     t = tables()
     non_native = {n for n, v in t["members"] if v in t["non_native"]}
     out = [("array", {"variant": "ml"}), ("array", {"variant": "ml_dtype"}), ("array", {"variant": "fortran"}),
-           ("array", {"variant": "strided"}), ("array", {"variant": "ir.tensor"})]
+           ("array", {"variant": "strided"}), ("array", {"variant": "ir.tensor"}),
+           ("array", {"variant": "offset_view", "light": True}), ("array", {"variant": "offset_strided", "light": True})]
     if name in non_native:
         out.append(("array", {"variant": "uint"}))
     if name in ("INT4", "INT2"):
         out.append(("array", {"variant": "int8"}))
     if bw < 8:
         out.append(("packed", {}))
+        out.append(("packed", {"view": True, "light": True}))
     out.append(("proto", {"field": "raw"}))
     out.append(("proto", {"field": "raw", "via": "ir.tensor"}))
     out.append(("proto", {"field": "helper"}))
@@ -931,12 +987,16 @@ def rep_variants(name: str) -> list[tuple[str, dict]]:
         from onnx_ir import tensor_adapters
         tensor_adapters.to_torch_dtype(ir.DataType[name])
         if bw >= 8:
-            out += [("torch", {}), ("torch", {"variant": "ir.tensor"}), ("torch", {"variant": "noncontig"})]
+            out += [("torch", {}), ("torch", {"variant": "ir.tensor"}), ("torch", {"variant": "noncontig"}),
+                    ("torch", {"variant": "view_tail", "k": 3, "light": True}), ("torch", {"variant": "view_narrow", "k": 5, "light": True}),
+                    ("torch", {"variant": "view_row", "k": 2, "light": True}), ("torch", {"variant": "view_split", "k": 4, "light": True}),
+                    ("torch", {"variant": "view_strided", "light": True}), ("torch", {"variant": "view_t_offset", "k": 1, "light": True})]
     except Exception:  # noqa: BLE001
         pass
     out += [("lazy", {"inner": {"rep": "array", "params": {"variant": "ml"}}, "cache": False}),
             ("lazy", {"inner": {"rep": "external", "params": {"pre": 2, "post": 0}}, "cache": True}),
             ("lazy", {"inner": {"rep": "proto", "params": {"field": "raw"}}, "cache": False}),
+            ("lazy", {"inner": {"rep": "external", "params": {"pre": 4097, "post": 0}}, "cache": False, "light": True}),
             ("serialized", {"inner": {"rep": "array", "params": {"variant": "ml"}}}),
             ("serialized", {"inner": {"rep": "external", "params": {"pre": 1, "post": 1}}}) ]
     if bw < 8:
@@ -959,6 +1019,10 @@ def gen_dests(rng, nbytes: int, full: bool) -> list[dict]:
     return out
 
 
+ORDERS = ["ntf", "tnf", "fnt", "tfn", "nft", "ftn"]
+BIG_OFFSETS = [4095, 4096, 4097, 8192, 12289, 65535, 65536, 65537, 131072 + 4096]
+
+
 def gen_wellformed(ck) -> list[dict]:
     """dtype x size 0..9 (exhaustive) x representation/storage field x (shape, values, destination sampled)"""
     rng = ck.rng
@@ -969,19 +1033,42 @@ def gen_wellformed(ck) -> list[dict]:
             variants = rep_variants(name)
             for n in range(10 if rnd == 0 else 18):
                 for vi, (rep, params) in enumerate(variants):
+                    if params.get("light") and not ck.thorough and (n + vi) % 3:
+                        continue
                     shape = rng.choice(shapes_for(rng, n))
                     mode = modes[(n + vi + rnd) % len(modes)]
                     xs = gen_bits(rng, name, n, mode)
                     specs.append({"dtype": name, "shape": shape, "bits": xs, "rep": rep, "params": params,
-                                  "dests": gen_dests(rng, ref_nbytes(name, n), full=(n in (0, 1, 5)))})
+                                  "order": ORDERS[(n + vi + rnd) % len(ORDERS)],
+                                  "dests": gen_dests(rng, ref_nbytes(name, n), full=(n in (0, 5)))})
+        # external data deep inside a file: around page / allocation-granularity boundaries, at end of file or not,
+        # every entry point first
+        far_names = NUMERIC() if ck.thorough else rng.sample(NUMERIC(), 4)
+        for name in NUMERIC():
+            for oi, off in enumerate(BIG_OFFSETS):
+                if off > 20000 and name not in far_names:
+                    continue            # quick tier: the far offsets (cost grows with the prefix) on 4 dtypes per run
+                n = rng.choice([1, 2, 3, 5, 8, 9]) if oi % 4 else rng.choice([1, 7])
+                for order in (ORDERS if off == 4096 else [ORDERS[(oi + rnd) % len(ORDERS)]]):
+                    params = {"pre": off + rng.choice([0, 0, 1, 13]) if oi % 3 == 2 else off,
+                              "post": rng.choice([0, 0, 3]), "length": rng.choice(["none", "nbytes"]),
+                              "via": rng.choice([None, "proto"])}
+                    specs.append({"dtype": name, "shape": rng.choice(shapes_for(rng, n)), "bits": gen_bits(rng, name, n, "random"),
+                                  "rep": "external", "params": params, "order": order,
+                                  "dests": gen_dests(rng, ref_nbytes(name, n), full=False)})
     n_rand = 150 if not ck.thorough else 2500
     names = NUMERIC()
     for _ in range(n_rand):
         name = rng.choice(names)
         n = rng.choice([10, 11, 13, 16, 17, 31, 64, 97, 255, 256, 300]) if rng.random() < 0.8 else rng.randrange(10, 400)
         rep, params = rng.choice(rep_variants(name))
+        if rep == "external" and rng.random() < 0.5:
+            params = dict(params, pre=rng.choice(BIG_OFFSETS[:5] + [rng.randrange(0, 20000 if not ck.thorough else 200000)]),
+                          post=rng.choice([0, 1, 5000]))
+            params.pop("offset_none", None)
         specs.append({"dtype": name, "shape": rng.choice(shapes_for(rng, n)), "bits": gen_bits(rng, name, n, rng.choice(modes)),
-                      "rep": rep, "params": params, "dests": gen_dests(rng, ref_nbytes(name, n), full=False)})
+                      "rep": rep, "params": params, "order": rng.choice(ORDERS),
+                      "dests": gen_dests(rng, ref_nbytes(name, n), full=False)})
     return specs
 
 
